@@ -50,6 +50,9 @@ CHECKS["C13"] = dict(cat="translation_validation", tech="symbolic execution of t
 CHECKS["C16"] = dict(cat="other", engine="E2-crosshair+E3-concolic", tech="CrossHair (z3-backed symbolic execution of the real _split_into_branches, symbolic type column per enumerated depth-first parent vector); numpy-object concolic execution of the real path-length / radius code with z3 per path (DART coverage)",
    text="Topology: for every depth-first parent vector with <=5 (thorough <=6) points CrossHair confirms over all paths, with all point types symbolic, that branches partition the points, are single-type parent/child chains with the reported type, and start exactly at branch points and type changes (both soma variants). Geometry: the real numpy code runs on symbolic coordinates and radii; z3 proves per explored path that branch lengths are the traced path lengths under the documented conventions and that compartment radii are the clipped linear interpolant. read_swc's pandas last mile is a concrete side-check.",
    note="structure (parent vectors, segment lengths for the radius part) enumerated; CrossHair verdicts other than 'Confirmed over all paths' are inconclusive; documented conventions are part of the oracle", ref="6 C16")
+CHECKS["C19"] = dict(cat="translation_validation", tech="enumerated editing histories; symbolic execution of traced integrate on the edited module vs a module rebuilt from its public tables, and history vs history+op+inverse; DAG equality; table predicates as concrete side-checks",
+   text="Histories over a 27-operation alphabet x 3 views on an irregular cell and a small network are enumerated (structure); after each accepted history the traced simulation, with symbolic stimulus samples and trainables, must equal that of a module rebuilt from the displayed tables through the public construction API, tracing must not raise, and appending an operation plus its documented inverse must change neither tables nor simulation.",
+   note="histories bounded (<=2 exhaustive-filtered quick, sampled triples thorough, seeded random 3-5); the rebuild-from-tables reference is part of the trusted base; table-consistency predicates are concrete", ref="6 C19")
 NA = {}
 checks = []
 for pid, c in CHECKS.items():
